@@ -12,22 +12,24 @@ THEOREMS = [
     "Mpc.C14_parse_ok_imp_WF_bristol",
     "Mpc.C14_parsed_WF",
     "Mpc.C14_bristol_never_panics",
-    "Mpc.C14_mpclc_panic_witness",
-    "Mpc.C14_mpclc_never_panics_partial",
+    "Mpc.C14_mpclc_never_panics",
     "Mpc.C14_mpclc_fuel_adequate",
     "Mpc.C14_parse_total",
     "Mpc.C14_type_roundtrip",
-    "Mpc.C14_mpclc_roundtrip_partial",
-    "Mpc.C14_mpclc_roundtrip_fixed",
+    "Mpc.C14_mpclc_roundtrip",
     "Mpc.C14_bristol_roundtrip",
-    "Mpc.C14_mpclc_roundtrip_short_read_witness",
-    "Mpc.C14_mpclc_roundtrip_short_reader_witness",
+    "Mpc.C14_each_repair_suffices",
+    # statements about the OLD variant Fix.none (before 7309cfb / a93bbfc)
+    "Mpc.C14_old_mpclc_panic_witness",
+    "Mpc.C14_old_mpclc_roundtrip_short_read_witness",
+    "Mpc.C14_old_mpclc_roundtrip_short_reader_witness",
+    "Mpc.C14_old_mpclc_roundtrip_one_buffer",
 ]
 
 # outcome classes / branches the generators must reach (measured, per run)
 NEED_COUNTERS = [
     "rt_native_over_4096", "rt_kind_inv-only", "rt_kind_big-header", "rt_kind_no-gates", "rt_bristol_ok",
-    "rt_native_ok_std", "fuzz_mpclc_ok", "fuzz_mpclc_error", "fuzz_bristol_ok", "fuzz_bristol_error",
+    "rt_native_ok_std", "rt_native_ok_chunked", "rt_native_ok_chunked-salted", "fuzz_mpclc_ok", "fuzz_mpclc_error", "fuzz_bristol_ok", "fuzz_bristol_error",
     "types_in_grammar", "types_text_ok", "types_text_error",
 ]
 
@@ -42,17 +44,22 @@ def distinct_ops(ctx, ops, out):
 
 
 def source_facts(ctx, counters_meta):
-    """The two code variants the model knows (Fix in Model/Format.lean) are
-    selected by behavioural probes in the harness; the same is read off the
-    source text and the two must agree."""
+    """The headline theorems are about the variant Fix.both (parseString reads
+    with io.ReadFull, ParseMPCLC tests the gate index before storing).  Both
+    repairs are REQUIRED of the code under test: read off the source text and
+    found by the harness's behavioural probes (the model is run in the probed
+    variant, so a missing repair additionally shows as oracle failures:
+    panic on the extra-gate-record files / round trip of > 4 KiB headers)."""
     ps = vlib.go_func_body("circuit/parser.go", r"parseString\(") or ""
     pm = vlib.go_func_body("circuit/parser.go", r"ParseMPCLC\(") or ""
     src_full = bool(re.search(r"io\.ReadFull\(\s*r\s*,\s*buf", ps)) and not re.search(r"r\.Read\(buf\)", ps)
     src_guard = bool(re.search(r"gate\s*>=\s*(int\()?\s*(header\.NumGates|len\(gates\))", pm))
-    ctx.fact("parseString reads the string bytes with io.ReadFull (probe vs source)",
-             bool(counters_meta.get("variant_parseString_ReadFull")), src_full)
-    ctx.fact("ParseMPCLC tests gate >= NumGates before storing (probe vs source)",
-             bool(counters_meta.get("variant_gate_count_guard")), src_guard)
+    ctx.fact("source: parseString reads the string bytes with io.ReadFull (a93bbfc)", src_full, True)
+    ctx.fact("source: ParseMPCLC tests gate >= len(gates) before storing (7309cfb)", src_guard, True)
+    ctx.fact("probe: a 6-byte name parses back through a one-byte-per-Read reader",
+             bool(counters_meta.get("variant_parseString_ReadFull")), True)
+    ctx.fact("probe: a file with one gate record more than declared is refused with an error",
+             counters_meta.get("probe_extra_gate_record"), "error")
     ctx.coverage["code_variant"] = {"parseString_ReadFull": src_full, "gate_count_guard": src_guard}
     pb = vlib.go_func_body("circuit/parser.go", r"ParseBristol\(") or ""
     ctx.fact("ParseBristol has the 'too many gates' guard", bool(re.search(r"gate\s*>=\s*numGates", pb)), True)
@@ -128,10 +135,13 @@ def run(ctx):
         "re-implemented in Model/Format.lean: tied by the correspondence runs only",
     ]
     return ctx.finish(
-        "Theorems (Props/C14.lean): every circuit either parser returns, for every byte string and every reader "
-        "behaviour, satisfies wfFrom (defined-before-use, indices in range) and has all wires assigned; ParseBristol "
-        "has no out-of-range access; ParseMPCLC's only one is the unguarded gates[gate] (negation witness proved and "
-        "replayed on the Go code; proved absent with the guard). Tie: the compiled Lean model is run on the same "
+        "Theorems (Props/C14.lean), all for the code as it is (variant Fix.both, required by fact + probe): every "
+        "circuit either parser returns, for every byte string and every reader behaviour, satisfies wfFrom "
+        "(defined-before-use, indices in range) and has all wires assigned; neither parser has an out-of-range access; "
+        "recursion bounds never reached; type text, Bristol and native round trips at full strength (native: every "
+        "valid circuit, every buffer size and read-size behaviour, every file size), re-marshal byte-equal, same "
+        "function. The defects of the old variant (panic on extra gate records, short read in parseString) are kept "
+        "as theorems about Fix.none. Tie: the compiled Lean model is run on the same "
         "files/circuits as the Go code: Marshal and MarshalBristol bytes, ParseMPCLC/ParseBristol result (full dump of "
         "the returned circuit, or error/panic class), Info.String, types.Parse. Oracle on the Go outputs: round trip "
         "(same gates/counts/signature, same function on random inputs, re-marshal byte-equal), no panic, no hang, "
